@@ -20,14 +20,15 @@ import (
 
 // T is a symbolic term.
 type T struct {
-	Op   string // const param free global obj faddr iaddr load bin un call conv assert extract closure fn lookup index field slice make range next phi? nilcheck
-	Name string
-	Args []*T
-	Seq  int // distinguishes repeated impure calls on one path
-	Typ  types.Type
-	K    constant.Value // for const
-	Fn   *ssa.Function  // for fn/closure
-	s    string
+	Op    string // const param free global obj faddr iaddr load bin un call conv assert extract closure fn lookup index field slice make range next phi? nilcheck
+	Name  string
+	Args  []*T
+	Seq   int // distinguishes repeated impure calls on one path
+	Typ   types.Type
+	K     constant.Value // for const
+	Fn    *ssa.Function  // for fn/closure
+	Boxed bool           // a concrete value converted to an interface (MakeInterface): as an interface it is non-nil
+	s     string
 }
 
 func (t *T) String() string {
@@ -471,7 +472,16 @@ func (sy *Sym) execFrom(fn *ssa.Function, b *ssa.BasicBlock, start int, st *symS
 		case *ssa.ChangeInterface:
 			st.env[x] = sy.val(st, x.X)
 		case *ssa.MakeInterface:
-			st.env[x] = sy.val(st, x.X)
+			// boxing: the interface value is never nil, whatever it holds (a typed
+			// nil pointer in an interface compares unequal to nil)
+			in := sy.val(st, x.X)
+			if _, isIface := x.X.Type().Underlying().(*types.Interface); !isIface && !in.IsNil() {
+				b := *in
+				b.Boxed = true
+				st.env[x] = &b
+			} else {
+				st.env[x] = in
+			}
 		case *ssa.Convert:
 			a := sy.val(st, x.X)
 			if a.Op == "const" {
@@ -630,6 +640,9 @@ func notT(a *T) *T {
 func binT(op token.Token, x, y *T, typ types.Type) *T {
 	if e := strLenTest(op, x, y, typ); e != nil {
 		return e
+	}
+	if (op == token.EQL || op == token.NEQ) && ((x.Boxed && y.IsNil()) || (y.Boxed && x.IsNil())) {
+		return &T{Op: "const", K: constant.MakeBool(op == token.NEQ), Typ: typ}
 	}
 	if x.IsNil() && y.IsNil() && (op == token.EQL || op == token.NEQ) {
 		return &T{Op: "const", K: constant.MakeBool(op == token.EQL), Typ: typ}
